@@ -4,6 +4,8 @@ import PtnModel.Proofs.DenseApply
 import PtnModel.Proofs.DenseIdentity
 import PtnModel.Proofs.DenseMergeMpo
 import PtnModel.Proofs.DenseSplitEx
+import PtnModel.Proofs.DenseApplyOk
+import PtnModel.Proofs.DenseSplitFullEx
 import PtnModel.Proofs.DenseExamples
 /-!
 # Property C03 (MPS/MPO arithmetic agrees with dense linear algebra)
@@ -200,5 +202,106 @@ example (distr : Nat) (hd : distr = 0 ∨ distr = 1 ∨ distr = 2) :
   · exact SplitEx.exists_of_isOk SplitEx.split_isOk.1
   · exact SplitEx.exists_of_isOk SplitEx.split_isOk.2.1
   · exact SplitEx.exists_of_isOk SplitEx.split_isOk.2.2
+
+/-- (g') Zero tolerance, under the kernel contracts of C12: merging undoes `split_mps_tensor(·, tol = 0)` for every way
+of distributing the singular values (`distr` = 0 left, 1 right, 2 sqrt).  Hypotheses (all about the one call of
+`split_matrix_svd` on the reshaped matrix `M`, vocabulary of `Props/C12Split.lean`):
+* `hc`    : the SVD kernel returns an exact SVD of every charge block of `M` (`C12.SVDContractOn`);
+* `hnorm`, `hsort` : `np.linalg.norm` / `np.argsort` contracts on the concatenated spectrum;
+* `hsqrt` : for `sqrt` only, `dsqrt x * dsqrt x = x` for `x = 0` and for the values of the spectrum;
+* `hι`    : the embedding of the reals into the entries used by the model is the ring homomorphism `ι`.
+Entries in a commutative star ring `𝕜` (`ℝ`, `ℂ`, `ℚ`), singular values in an ordered field `ρ`. -/
+theorem split_merge_tol0 {𝕜 : Type} [CommRing 𝕜] [StarRing 𝕜] [DecidableEq 𝕜]
+    {ρ : Type} [Field ρ] [LinearOrder ρ] [IsStrictOrderedRing ρ] [RealLike ρ 𝕜]
+    (ι : ρ →+* 𝕜) (hι : ∀ x : ρ, (RealLike.ofReal x : 𝕜) = ι x)
+    (k : MPS.SvdKernels 𝕜 ρ) (dsqrt : ρ → ρ) (A : T3 𝕜) (qd0 qd1 qD0 qD2 : List Int) (distr : Nat)
+    (hc : C12.SVDContractOn ι k.dsvd (MPS.splitMat A qd0.length qd1.length).tab (QN.flatten2 qd0 qD0)
+      (QN.flatten2 (QN.neg qd1) qD2))
+    (hnorm : C12.NormContract
+      (BondOps.spectrum k.dsvd (MPS.splitMat A qd0.length qd1.length).tab (QN.flatten2 qd0 qD0)
+        (QN.flatten2 (QN.neg qd1) qD2))
+      (k.dnorm (BondOps.spectrum k.dsvd (MPS.splitMat A qd0.length qd1.length).tab (QN.flatten2 qd0 qD0)
+        (QN.flatten2 (QN.neg qd1) qD2))))
+    (hsort : C12.SortContract
+      (C12.sortKeys (BondOps.spectrum k.dsvd (MPS.splitMat A qd0.length qd1.length).tab (QN.flatten2 qd0 qD0)
+          (QN.flatten2 (QN.neg qd1) qD2))
+        (k.dnorm (BondOps.spectrum k.dsvd (MPS.splitMat A qd0.length qd1.length).tab (QN.flatten2 qd0 qD0)
+          (QN.flatten2 (QN.neg qd1) qD2))))
+      (k.dargsort (C12.sortKeys (BondOps.spectrum k.dsvd (MPS.splitMat A qd0.length qd1.length).tab
+          (QN.flatten2 qd0 qD0) (QN.flatten2 (QN.neg qd1) qD2))
+        (k.dnorm (BondOps.spectrum k.dsvd (MPS.splitMat A qd0.length qd1.length).tab (QN.flatten2 qd0 qD0)
+          (QN.flatten2 (QN.neg qd1) qD2))))))
+    (hsqrt : distr = 2 → ∀ x, (x = 0 ∨ x ∈ BondOps.spectrum k.dsvd (MPS.splitMat A qd0.length qd1.length).tab
+      (QN.flatten2 qd0 qD0) (QN.flatten2 (QN.neg qd1) qD2)) → dsqrt x * dsqrt x = x)
+    (B0 B1 : T3 𝕜) (qb : List Int)
+    (h : MPS.splitMpsTensor k dsqrt A qd0 qd1 qD0 qD2 distr (0 : ρ) = .ok (B0, B1, qb)) :
+    (MPS.mergePair B0 B1).d0 = A.d0 ∧ (MPS.mergePair B0 B1).d1 = A.d1 ∧ (MPS.mergePair B0 B1).d2 = A.d2 ∧
+    ∀ s < A.d0, ∀ a < A.d1, ∀ c < A.d2, (MPS.mergePair B0 B1).f s a c = A.f s a c :=
+  MPS.split_merge_tol0' ι hι k dsqrt A qd0 qd1 qD0 qD2 distr hc hnorm hsort hsqrt B0 B1 qb h
+
+/-- non-vacuity of `split_merge_tol0`: the tensor with reshaped matrix `[[12/5, 16/5]] = 1 · 4 · [3/5, 4/5]` over `ℚ`;
+all contracts hold and the split returns, for each of the three distributions -/
+example (distr : Nat) (hd : distr = 0 ∨ distr = 1 ∨ distr = 2) :
+    (∀ x : ℚ, (RealLike.ofReal x : ℚ) = (RingHom.id ℚ) x) ∧
+    C12.SVDContractOn (RingHom.id ℚ) SplitQ.k.dsvd SplitQ.M SplitQ.q0 SplitQ.q1 ∧
+    C12.NormContract (BondOps.spectrum SplitQ.k.dsvd SplitQ.M SplitQ.q0 SplitQ.q1)
+      (SplitQ.k.dnorm (BondOps.spectrum SplitQ.k.dsvd SplitQ.M SplitQ.q0 SplitQ.q1)) ∧
+    C12.SortContract (C12.sortKeys (BondOps.spectrum SplitQ.k.dsvd SplitQ.M SplitQ.q0 SplitQ.q1)
+        (SplitQ.k.dnorm (BondOps.spectrum SplitQ.k.dsvd SplitQ.M SplitQ.q0 SplitQ.q1)))
+      (SplitQ.k.dargsort (C12.sortKeys (BondOps.spectrum SplitQ.k.dsvd SplitQ.M SplitQ.q0 SplitQ.q1)
+        (SplitQ.k.dnorm (BondOps.spectrum SplitQ.k.dsvd SplitQ.M SplitQ.q0 SplitQ.q1)))) ∧
+    (∀ x, (x = 0 ∨ x ∈ BondOps.spectrum SplitQ.k.dsvd SplitQ.M SplitQ.q0 SplitQ.q1) →
+      SplitQ.dsqrt x * SplitQ.dsqrt x = x) ∧
+    ∃ r, MPS.splitMpsTensor SplitQ.k SplitQ.dsqrt SplitQ.A [0] [0, 0] [0] [0] distr (0 : ℚ) = .ok r := by
+  refine ⟨fun _ => rfl, SplitQ.contract, SplitQ.norm_contract, SplitQ.sort_contract, SplitQ.sqrt_contract, ?_⟩
+  rcases hd with rfl | rfl | rfl
+  · exact SplitEx.exists_of_isOk SplitQ.split_isOk.1
+  · exact SplitEx.exists_of_isOk SplitQ.split_isOk.2.1
+  · exact SplitEx.exists_of_isOk SplitQ.split_isOk.2.2
+
+/-! ### The calls do return on operands satisfying the asserted preconditions
+
+`wellFormed` (model `MPS.wellFormed` / `MPO.wellFormed`): `len(qD) = L + 1`, every tensor has the shape given by `qd` and
+the charge lists, and every tensor is block sparse (`is_qsparse`). -/
+
+/-- (a-ok) `add_mps` raises no exception on well-formed operands with equal `qd`, equal length and equal boundary
+charges; together with `add_mps_dense` this gives the unconditional statement. -/
+theorem add_mps_ok (ψ0 ψ1 : MPS R) (α : R) (w0 : ψ0.wellFormed = true) (w1 : ψ1.wellFormed = true)
+    (hqd : ψ0.qd = ψ1.qd) (hlen : ψ0.A.length = ψ1.A.length) (hb0 : ψ0.qD.getD 0 [] = ψ1.qD.getD 0 [])
+    (hbL : ψ0.qD.getD ψ0.A.length [] = ψ1.qD.getD ψ0.A.length []) : ∃ r, MPS.add ψ0 ψ1 α = .ok r :=
+  MPS.add_ok ψ0 ψ1 α w0 w1 hqd hlen hb0 hbL
+
+/-- non-vacuity of `add_mps_ok` -/
+example : ψ0.wellFormed = true ∧ ψ1.wellFormed = true ∧ ψ0.qd = ψ1.qd ∧ ψ0.A.length = ψ1.A.length ∧
+    ψ0.qD.getD 0 [] = ψ1.qD.getD 0 [] ∧ ψ0.qD.getD ψ0.A.length [] = ψ1.qD.getD ψ0.A.length [] := by decide
+
+/-- (b-ok) `add_mpo` raises no exception on well-formed operands with equal `qd`, length and boundary charges. -/
+theorem add_mpo_ok (o0 o1 : MPO R) (α : R) (w0 : o0.wellFormed = true) (w1 : o1.wellFormed = true)
+    (hqd : o0.qd = o1.qd) (hlen : o0.A.length = o1.A.length) (hb0 : o0.qD.getD 0 [] = o1.qD.getD 0 [])
+    (hbL : o0.qD.getD o0.A.length [] = o1.qD.getD o0.A.length []) : ∃ r, MPO.add o0 o1 α = .ok r :=
+  MPO.add_ok o0 o1 α w0 w1 hqd hlen hb0 hbL
+
+/-- non-vacuity of `add_mpo_ok` -/
+example : o0.wellFormed = true ∧ o1.wellFormed = true ∧ o0.qd = o1.qd ∧ o0.A.length = o1.A.length ∧
+    o0.qD.getD 0 [] = o1.qD.getD 0 [] ∧ o0.qD.getD o0.A.length [] = o1.qD.getD o0.A.length [] := by decide
+
+/-- (c-ok) `multiply_mpo` raises no exception on well-formed operands with equal `qd` and length. -/
+theorem mul_mpo_ok (o0 o1 : MPO R) (w0 : o0.wellFormed = true) (w1 : o1.wellFormed = true)
+    (hqd : o0.qd = o1.qd) (hlen : o0.A.length = o1.A.length) : ∃ r, MPO.multiply o0 o1 = .ok r :=
+  MPO.multiply_ok o0 o1 w0 w1 hqd hlen
+
+/-- (d-ok) `apply_operator` raises no exception on well-formed operands with equal `qd` and length and boundary bonds of
+dimension 1. -/
+theorem apply_ok (o : MPO R) (ψ : MPS R) (w0 : o.wellFormed = true) (w1 : ψ.wellFormed = true)
+    (hqd : ψ.qd = o.qd) (hlen : ψ.A.length = o.A.length)
+    (ho0 : (o.qD.getD 0 []).length = 1) (hp0 : (ψ.qD.getD 0 []).length = 1)
+    (hoL : (o.qD.getD ψ.A.length []).length = 1) (hpL : (ψ.qD.getD ψ.A.length []).length = 1) :
+    ∃ r, Op.applyOperator o ψ = .ok r :=
+  Op.apply_ok o ψ w0 w1 hqd hlen ho0 hp0 hoL hpL
+
+/-- non-vacuity of `mul_mpo_ok` and `apply_ok` -/
+example : o0.wellFormed = true ∧ o1.wellFormed = true ∧ ψ0.wellFormed = true ∧ ψ0.qd = o0.qd ∧
+    ψ0.A.length = o0.A.length ∧ (o0.qD.getD 0 []).length = 1 ∧ (ψ0.qD.getD 0 []).length = 1 ∧
+    (o0.qD.getD ψ0.A.length []).length = 1 ∧ (ψ0.qD.getD ψ0.A.length []).length = 1 := by decide
 
 end Ptn.C03
